@@ -328,7 +328,11 @@ def check_cli_case(case, acc):
             f.write(vbs_ref.frame([data, bad, data]))
 
         def run():
-            with contextlib.redirect_stdout(io.StringIO()):
+            with contextlib.redirect_stdout(io.StringIO()), contextlib.redirect_stderr(io.StringIO()):
+                if case.get('tool') == 'mideu':
+                    from cardutil.cli import mideu
+                    return mideu.cli_entry(['extract', path, '-s', 'ascii', '--no1014blocking', '--csvoutputfile',
+                                            os.path.join(d, 'out.csv')])
                 return mci_ipm_to_csv.cli_run(in_filename=path, out_filename=os.path.join(d, 'out.csv'),
                                               in_encoding='latin_1', no1014blocking=True)
         status, val = faults.guarded(run, CPU_LIMIT)
@@ -336,7 +340,7 @@ def check_cli_case(case, acc):
         shutil.rmtree(d, ignore_errors=True)
     out = 'hang' if status == 'hang' else ('traceback:' + type(val).__name__ if status == 'exc' else
                                            'diagnostic' if val == -1 else 'completed')
-    acc.case(('cli', case['msg'], tuple(case['mut'])), nontrivial=True, outcome='cli:' + out)
+    acc.case(('cli', case['msg'], tuple(case['mut']), case.get('tool')), nontrivial=True, outcome='cli:' + out)
     if out == 'hang' or out.startswith('traceback'):
         acc.viol('c07.cli.%s' % out.split(':')[0], case, out, 'stops with a diagnostic (return -1) or completes')
 
@@ -350,6 +354,7 @@ CLI_CASES = [
     {'kind': 'cli', 'msg': 'plain', 'mut': ['trunc', 40]},
     {'kind': 'cli', 'msg': 'plain', 'mut': ['none']},
 ]
+CLI_CASES += [dict(c, tool='mideu') for c in CLI_CASES]
 
 
 def replay_into(case, acc):
